@@ -38,11 +38,8 @@ Proof. reflexivity. Qed.
 Theorem generated_code_refines_reference_semantics :
   forall (msem : string -> option (list operand) -> dval -> list dval -> comp dval)
          (dotsem : operand -> list (string * option val) -> dval -> comp dval)
-         (callsem : val -> list dval -> comp dval) (awaitsem : val -> comp val),
-    (forall m tf r ds, RefineBase.leaves RefineChain.not_clo (msem m tf r ds)) ->
-    (forall o sn r, RefineBase.leaves RefineChain.not_clo (dotsem o sn r)) ->
-    (forall f ds, RefineBase.leaves RefineChain.not_clo (callsem f ds)) ->
-    forall (cfg : config) (inp : input) (e : Ir.rexpr) (sp : sprog),
+         (callsem : val -> list dval -> comp dval) (awaitsem : val -> comp val)
+         (cfg : config) (inp : input) (e : Ir.rexpr) (sp : sprog),
       RefineProg.wf inp -> Gen.gen cfg inp = Ir.Ok e -> prepare cfg inp = Some sp ->
       den (user_names inp) msem dotsem callsem awaitsem e empty_env = spec msem dotsem callsem awaitsem sp.
 Proof. exact RefineTop.gen_refines_spec. Qed.
